@@ -315,6 +315,7 @@ class InteractionsEncoder:
         self.n+= 1
 
         ns_raw_values = { k:v if v is not None else [] for k,v in ns_raw_values.items() }
+        for ns in self._ns_max_pow: ns_raw_values.setdefault(ns,[]) #an absent namespace is an empty namespace
 
         is_str = lambda v: isinstance(v,str)
         is_seq = lambda v: isinstance(v,Dense)
